@@ -97,6 +97,38 @@ func (r reqGen) headerList() []kv {
 	return append(hs, r.fields...)
 }
 
+// expectLine: what the handler must see for this request (ground truth for the monitors).
+func (g *sgen) expectLine(r reqGen) {
+	var slots, rest []kv
+	var ct, ua *kv
+	for i := range r.fields {
+		f := r.fields[i]
+		switch f.k {
+		case "content-length":
+		case "content-type":
+			ct = &r.fields[i]
+		case "user-agent":
+			ua = &r.fields[i]
+		default:
+			rest = append(rest, f)
+		}
+	}
+	if ct != nil {
+		slots = append(slots, *ct)
+	}
+	if ua != nil {
+		slots = append(slots, *ua)
+	}
+	all := append(slots, rest...)
+	all = append(all, r.trailers...)
+	auth := r.auth
+	if r.noAuth {
+		auth = ""
+	}
+	g.line("#expect dispatch(%d,m=%s,p=%s,a=%s,f=%s,b=%s)", r.sid, hexOrDash([]byte(r.method)), hexOrDash([]byte(r.path)),
+		hexOrDash([]byte(auth)), kvHex(all), digest(r.body))
+}
+
 // rendering choices
 type render struct {
 	splits    int  // number of CONTINUATION frames the header block is cut into
@@ -200,6 +232,7 @@ func (g *sgen) requestUnits(r reqGen, rd render) []unit {
 	hasTrailers := len(r.trailers) > 0
 	var us []unit
 	us = append(us, func() [][]byte {
+		g.expectLine(r)
 		var ep *prng
 		if !rd.plain {
 			ep = p
@@ -433,4 +466,776 @@ func genSrvBasic(p *prng, thorough bool, w *bufio.Writer) {
 
 func init() {
 	srvGens["srv-basic"] = genSrvBasic
+}
+
+// ---- more families -----------------------------------------------------
+
+func (g *sgen) simpleReq(sid uint32, method string, body []byte, extra ...kv) {
+	r := reqGen{sid: sid, method: method, scheme: "https", path: "/", auth: "a", fields: extra, body: body}
+	for _, u := range g.requestUnits(r, render{padHdr: -1, padData: -1}) {
+		for _, fr := range u() {
+			g.frame(fr)
+		}
+	}
+}
+
+// srv-flow (C06): response size vectors x buffered/streamed x window schedules.
+func genSrvFlow(p *prng, thorough bool, w *bufio.Writer) {
+	g := newSgen(p, w)
+	rounds := 80
+	if thorough {
+		rounds = 800
+	}
+	for c := 0; c < rounds; c++ {
+		g.newConn(8, 0, 0)
+		iw := uint32([]int{0, 1, 10, 100, 1000, 16384, 65535, 70000, 200000}[p.intn(9)])
+		if p.chance(1, 5) {
+			g.settings()
+			iw = 65535
+		} else {
+			g.settings(4, iw)
+		}
+		n := 1 + p.intn(4)
+		var open []uint32
+		for i := 0; i < n; i++ {
+			sid := g.sid()
+			g.simpleReq(sid, "GET", nil)
+			open = append(open, sid)
+		}
+		pendingDone := append([]uint32(nil), open...)
+		steps := 6 + p.intn(14)
+		for s := 0; s < steps; s++ {
+			switch k := p.intn(10); {
+			case k < 3 && len(pendingDone) > 0:
+				i := p.intn(len(pendingDone))
+				sid := pendingDone[i]
+				pendingDone = append(pendingDone[:i], pendingDone[i+1:]...)
+				sz := []int{0, 1, 9, 10, 11, 100, 16383, 16384, 16385, 40000, 65535, 65536, 100000}[p.intn(13)]
+				body := fmt.Sprintf("pat:%d", sz)
+				if sz == 0 {
+					body = "none"
+				} else if p.chance(1, 3) {
+					a := 1 + p.intn(sz)
+					decl := sz
+					if p.chance(1, 3) {
+						decl = -1 // length not known in advance
+					}
+					if a == sz {
+						body = fmt.Sprintf("stream:%d:%d:%s", decl, sz, p.pick([]string{"e", "E"}))
+					} else {
+						body = fmt.Sprintf("stream:%d:%d.%d:%s", decl, a, sz-a, p.pick([]string{"e", "E"}))
+					}
+				}
+				g.done(sid, respGen{status: 200, body: body})
+			case k < 5:
+				g.windowUpdate(open[p.intn(len(open))], uint32([]int{1, 5, 10, 100, 16384, 65535, 100000}[p.intn(7)]))
+			case k < 7:
+				g.windowUpdate(0, uint32([]int{1, 10, 100, 16384, 65535, 1 << 20}[p.intn(6)]))
+			case k < 8:
+				iw = uint32([]int{0, 1, 10, 100, 5000, 65535, 100000}[p.intn(7)])
+				g.settings(4, iw)
+			case k < 9:
+				sid := g.sid()
+				g.simpleReq(sid, "GET", nil)
+				open = append(open, sid)
+				pendingDone = append(pendingDone, sid)
+			default:
+				g.ping(byte(s))
+			}
+		}
+		// grant plenty at the end: every response must complete
+		g.windowUpdate(0, 1<<22)
+		for _, sid := range pendingDone {
+			g.done(sid, respGen{status: 200, body: fmt.Sprintf("pat:%d", 1+p.intn(3000))})
+		}
+		g.settings(4, 1<<22)
+		for _, sid := range open {
+			g.windowUpdate(sid, 1<<20)
+		}
+		g.gauges()
+	}
+	g.line("srv %s end", g.id)
+}
+
+// one symbol of the C08 alphabet
+type sym struct {
+	name string
+	f    func(g *sgen, sid uint32)
+}
+
+func (g *sgen) hdrBlock(end bool) []byte {
+	return g.enc.block(nil, []kv{{k: ":method", v: "POST"}, {k: ":scheme", v: "https"}, {k: ":path", v: "/"}, {k: ":authority", v: "a"}})
+}
+
+var stateAlphabet = []sym{
+	{"H", func(g *sgen, sid uint32) { g.frame(frameBytes(1, 4, sid, g.hdrBlock(false))) }},
+	{"HE", func(g *sgen, sid uint32) { g.frame(frameBytes(1, 5, sid, g.hdrBlock(true))) }},
+	{"Hc", func(g *sgen, sid uint32) { b := g.hdrBlock(false); g.frame(frameBytes(1, 0, sid, b[:2])); g.frame(frameBytes(9, 4, sid, b[2:])) }},
+	{"HEc", func(g *sgen, sid uint32) { b := g.hdrBlock(true); g.frame(frameBytes(1, 1, sid, b[:2])); g.frame(frameBytes(9, 4, sid, b[2:])) }},
+	{"Hopen", func(g *sgen, sid uint32) { b := g.hdrBlock(false); g.frame(frameBytes(1, 0, sid, b[:2])) }},
+	{"C", func(g *sgen, sid uint32) { g.frame(frameBytes(9, 4, sid, nil)) }},
+	{"D", func(g *sgen, sid uint32) { g.frame(frameBytes(0, 0, sid, []byte("abc"))) }},
+	{"DE", func(g *sgen, sid uint32) { g.frame(frameBytes(0, 1, sid, []byte("xy"))) }},
+	{"T", func(g *sgen, sid uint32) { g.frame(frameBytes(1, 5, sid, g.enc.block(nil, []kv{{k: "x-t", v: "1"}}))) }},
+	{"Tc", func(g *sgen, sid uint32) { b := g.enc.block(nil, []kv{{k: "x-t", v: "1"}}); g.frame(frameBytes(1, 1, sid, b[:3])); g.frame(frameBytes(9, 4, sid, b[3:])) }},
+	{"R", func(g *sgen, sid uint32) { g.rst(sid, 8) }},
+	{"W", func(g *sgen, sid uint32) { g.windowUpdate(sid, 100) }},
+	{"W0", func(g *sgen, sid uint32) { g.windowUpdate(sid, 0) }},
+	{"Wmax", func(g *sgen, sid uint32) { g.windowUpdate(sid, 0x7fffffff-65535) }},
+	{"Wover", func(g *sgen, sid uint32) { g.windowUpdate(sid, 0x7fffffff) }},
+	{"P", func(g *sgen, sid uint32) { g.priority(sid, 0, 10) }},
+	{"Pself", func(g *sgen, sid uint32) { g.priority(sid, sid, 10) }},
+	{"Wfl", func(g *sgen, sid uint32) { g.frame(frameBytes(8, 1, sid, u32(10))) }},
+	{"done", func(g *sgen, sid uint32) { g.done(sid, respGen{status: 200, body: "pat:5"}) }},
+	{"ping", func(g *sgen, sid uint32) { g.ping(1) }},
+	{"wu0", func(g *sgen, sid uint32) { g.windowUpdate(0, 10) }},
+}
+
+// stream selectors: which id a symbol applies to
+var selectors = []string{"cur", "new", "low", "even"}
+
+func (g *sgen) runSeq(seq [][2]int) {
+	g.newConn(3, 0, 0)
+	g.settings()
+	cur := uint32(0)
+	g.next = 5 // ids 1 and 3 stay unused: "lower than the latest, never opened"
+	var names []string
+	for _, s := range seq {
+		sy, sel := stateAlphabet[s[0]], selectors[s[1]]
+		var sid uint32
+		switch sel {
+		case "cur":
+			if cur == 0 {
+				cur = g.sid()
+			}
+			sid = cur
+		case "new":
+			cur = g.sid()
+			sid = cur
+		case "low":
+			sid = 3
+		case "even":
+			sid = 4
+		}
+		names = append(names, sy.name+"@"+sel)
+		g.line("# %s", strings.Join(names, " "))
+		sy.f(g, sid)
+	}
+	g.gauges()
+}
+
+// srv-state (C08): bounded-exhaustive frame sequences over the alphabet and the
+// stream selectors, plus seeded longer ones.
+func genSrvState(p *prng, thorough bool, w *bufio.Writer) {
+	g := newSgen(p, w)
+	na, ns := len(stateAlphabet), len(selectors)
+	var all [][2]int
+	for a := 0; a < na; a++ {
+		for s := 0; s < ns; s++ {
+			all = append(all, [2]int{a, s})
+		}
+	}
+	for _, x := range all {
+		g.runSeq([][2]int{x})
+	}
+	for _, x := range all {
+		for _, y := range all {
+			if y[1] == 3 && x[1] == 3 {
+				continue
+			}
+			g.runSeq([][2]int{x, y})
+		}
+	}
+	n := 1500
+	if thorough {
+		n = 40000
+	}
+	for i := 0; i < n; i++ {
+		l := 3 + p.intn(5)
+		var seq [][2]int
+		for j := 0; j < l; j++ {
+			sel := 0
+			if p.chance(1, 3) {
+				sel = p.intn(ns)
+			}
+			seq = append(seq, [2]int{p.intn(na), sel})
+		}
+		g.runSeq(seq)
+	}
+	g.line("srv %s end", g.id)
+}
+
+// offences of one stream (C09 catalogue)
+func (g *sgen) offence(kind int, sid uint32) (dispatched bool) {
+	switch kind {
+	case 0: // uppercase name
+		g.frame(frameBytes(1, 5, sid, g.enc.block(g.p, []kv{{k: ":method", v: "GET"}, {k: ":scheme", v: "https"}, {k: ":path", v: "/"}, {k: "X-Bad", v: "1"}, {k: "x-after", v: "later"}})))
+	case 1: // pseudo after regular
+		g.frame(frameBytes(1, 5, sid, g.enc.block(g.p, []kv{{k: ":method", v: "GET"}, {k: "x-a", v: "1"}, {k: ":scheme", v: "https"}, {k: ":path", v: "/"}, {k: "x-new-entry", v: "zz"}})))
+	case 2: // missing :path
+		g.frame(frameBytes(1, 5, sid, g.enc.block(g.p, []kv{{k: ":method", v: "GET"}, {k: ":scheme", v: "https"}, {k: "x-q", v: "qq"}})))
+	case 3: // peer resets right after HEADERS
+		g.frame(frameBytes(1, 4, sid, g.enc.block(g.p, []kv{{k: ":method", v: "POST"}, {k: ":scheme", v: "https"}, {k: ":path", v: "/"}, {k: "x-r", v: "reset"}})))
+		g.rst(sid, 8)
+	case 4: // peer resets while the handler runs
+		g.simpleReq(sid, "GET", nil, kv{k: "x-h", v: "run"})
+		g.rst(sid, 8)
+		return true
+	case 5: // handler panics
+		g.simpleReq(sid, "GET", nil)
+		g.done(sid, respGen{status: 200, body: "panic"})
+	case 6: // stream window overflow
+		g.simpleReq(sid, "GET", nil)
+		g.windowUpdate(sid, 0x7fffffff)
+		return true
+	case 7: // content-length mismatch
+		g.simpleReq(sid, "POST", []byte("abc"), kv{k: "content-length", v: "5"})
+	case 8: // connection-specific field
+		g.frame(frameBytes(1, 5, sid, g.enc.block(g.p, []kv{{k: ":method", v: "GET"}, {k: ":scheme", v: "https"}, {k: ":path", v: "/"}, {k: "connection", v: "close"}, {k: "x-tail", v: "t"}})))
+	case 9: // DATA still in flight after the server reset the stream
+		g.frame(frameBytes(1, 4, sid, g.enc.block(g.p, []kv{{k: ":method", v: "POST"}, {k: ":scheme", v: "https"}, {k: ":path", v: "/"}, {k: "X-Up", v: "1"}})))
+		g.frame(frameBytes(0, 0, sid, []byte("in flight")))
+		g.frame(frameBytes(0, 1, sid, []byte("more")))
+	case 10: // zero increment on a stream
+		g.simpleReq(sid, "GET", nil)
+		g.windowUpdate(sid, 0)
+		return true
+	}
+	return false
+}
+
+// srv-err (C09): offending streams placed among well-formed ones.
+func genSrvErr(p *prng, thorough bool, w *bufio.Writer) {
+	g := newSgen(p, w)
+	rounds := 150
+	if thorough {
+		rounds = 1500
+	}
+	for c := 0; c < rounds; c++ {
+		mcs := 3 + p.intn(4)
+		g.newConn(mcs, 0, 1000)
+		g.settings()
+		var parked []uint32
+		for i := 0; i < 2+p.intn(6); i++ {
+			if len(parked) >= mcs-1 {
+				j := p.intn(len(parked))
+				g.done(parked[j], g.randResp())
+				parked = append(parked[:j], parked[j+1:]...)
+			}
+			sid := g.sid()
+			if p.chance(2, 5) {
+				kind := p.intn(11)
+				g.line("#offence %d %d", kind, sid)
+				if g.offence(kind, sid) {
+					parked = append(parked, sid)
+				}
+			} else if p.chance(1, 6) && len(parked) > 0 {
+				// refused stream: fill the slots first
+				for len(parked) < mcs {
+					s2 := sid
+					g.simpleReq(s2, "GET", nil)
+					parked = append(parked, s2)
+					sid = g.sid()
+				}
+				g.line("#refused %d", sid)
+				g.frame(frameBytes(1, 5, sid, g.enc.block(p, []kv{{k: ":method", v: "GET"}, {k: ":scheme", v: "https"}, {k: ":path", v: "/"}, {k: "x-refused", v: "entry"}})))
+			} else {
+				r := g.randRequest(sid)
+				for _, u := range g.requestUnits(r, g.randRender()) {
+					for _, fr := range u() {
+						g.frame(fr)
+					}
+				}
+				parked = append(parked, sid)
+			}
+		}
+		for _, sid := range parked {
+			g.done(sid, g.randResp())
+		}
+		g.windowUpdate(0, 1<<20)
+		g.gauges()
+	}
+	g.line("srv %s end", g.id)
+}
+
+// connection-scoped offences (C10 catalogue)
+func (g *sgen) connOffence(kind int) {
+	switch kind {
+	case 0:
+		g.frame(frameBytes(6, 0, 0, []byte{1, 2, 3})) // PING length
+	case 1:
+		g.frame(frameBytes(4, 0, 0, []byte{0, 1, 0, 0})) // SETTINGS length
+	case 2:
+		g.frame(frameBytes(9, 4, g.next, nil)) // stray CONTINUATION
+	case 3:
+		sid := g.sid()
+		b := g.hdrBlock(false)
+		g.frame(frameBytes(1, 0, sid, b[:2]))
+		g.ping(9) // non-CONTINUATION inside a block
+	case 4:
+		g.frame(frameBytes(1, 5, 2, g.hdrBlock(true))) // even stream id
+	case 5:
+		g.settings(2, 2) // ENABLE_PUSH = 2
+	case 6:
+		g.settings(4, 0x80000000) // INITIAL_WINDOW_SIZE too large
+	case 7:
+		g.settings(5, 100) // MAX_FRAME_SIZE too small
+	case 8:
+		g.windowUpdate(0, 0)
+	case 9:
+		g.windowUpdate(0, 0x7fffffff)
+	case 10:
+		sid := g.sid()
+		g.frame(frameBytes(1, 5, sid, []byte{0xff, 0xff, 0xff, 0xff, 0xff})) // index past the table
+	case 11:
+		g.frame(frameBytes(0, 0, g.sid(), []byte("x"))) // DATA on idle
+	case 12:
+		g.rst(g.sid(), 8) // RST on idle
+	case 13:
+		g.frame(frameBytes(0, 0, 0, []byte("x"))) // DATA on stream 0
+	case 14:
+		g.frame(frameBytes(4, 1, 0, []byte{0, 1, 0, 0, 0, 0})) // ACK with payload
+	case 15:
+		g.frame(frameBytes(6, 0, 1, []byte{1, 2, 3, 4, 5, 6, 7, 8})) // PING with stream id
+	case 16:
+		g.frame(frameBytes(8, 0, g.sid(), u32(10))) // WINDOW_UPDATE on idle
+	case 17:
+		g.line("srv %s idle", g.id)
+	case 18:
+		if g.next > 3 {
+			g.frame(frameBytes(1, 5, g.next-4, g.hdrBlock(true))) // HEADERS on an id lower than the latest
+		} else {
+			g.frame(frameBytes(5, 4, 1, []byte{0, 0, 0, 2})) // PUSH_PROMISE from a client
+		}
+	case 19:
+		g.frame(append(frameBytes(0, 0, 1, nil)[:9], 0)[:9]) // placeholder, replaced below
+	}
+}
+
+// srv-goaway (C10): a connection-scoped offence inside multiplexed traffic.
+func genSrvGoAway(p *prng, thorough bool, w *bufio.Writer) {
+	g := newSgen(p, w)
+	rounds := 200
+	if thorough {
+		rounds = 2000
+	}
+	for c := 0; c < rounds; c++ {
+		g.newConn(6, 0, 0)
+		g.settings()
+		var parked []uint32
+		before := p.intn(4)
+		for i := 0; i < before; i++ {
+			sid := g.sid()
+			g.simpleReq(sid, "GET", nil)
+			if p.chance(1, 2) {
+				g.done(sid, g.randResp())
+			} else {
+				parked = append(parked, sid)
+			}
+		}
+		kind := p.intn(19)
+		g.line("#connoffence %d", kind)
+		g.connOffence(kind)
+		// trailing traffic
+		for i := 0; i < p.intn(4); i++ {
+			switch p.intn(3) {
+			case 0:
+				sid := g.sid()
+				g.simpleReq(sid, "GET", nil)
+				parked = append(parked, sid)
+			case 1:
+				g.ping(3)
+			case 2:
+				if len(parked) > 0 {
+					g.windowUpdate(parked[0], 10)
+				}
+			}
+		}
+		for _, sid := range parked {
+			g.done(sid, g.randResp())
+		}
+		g.ping(4)
+	}
+	g.line("srv %s end", g.id)
+}
+
+// srv-limits (C13): adversarial schedules with parked handlers.
+func genSrvLimits(p *prng, thorough bool, w *bufio.Writer) {
+	g := newSgen(p, w)
+	rounds := 40
+	if thorough {
+		rounds = 300
+	}
+	for c := 0; c < rounds; c++ {
+		mcs := 1 + p.intn(4)
+		g.newConn(mcs, 2000, 500)
+		g.settings()
+		var running []uint32
+		steps := 30 + p.intn(60)
+		for s := 0; s < steps; s++ {
+			switch p.intn(11) {
+			case 0, 1: // HEADERS + RST (rapid reset)
+				sid := g.sid()
+				g.simpleReq(sid, "GET", nil)
+				running = append(running, sid)
+				g.rst(sid, 8)
+			case 2: // half-open stream
+				sid := g.sid()
+				g.frame(frameBytes(1, 4, sid, g.hdrBlock(false)))
+			case 3: // WINDOW_UPDATE on a recently closed id
+				if g.next > 1 {
+					g.windowUpdate(g.next-2, 5)
+				}
+			case 4: // endless CONTINUATION on one block
+				sid := g.sid()
+				b := g.enc.block(nil, []kv{{k: ":method", v: "GET"}, {k: ":scheme", v: "https"}, {k: ":path", v: "/"}})
+				g.frame(frameBytes(1, 1, sid, b))
+				for i := 0; i < 3+p.intn(20); i++ {
+					g.frame(frameBytes(9, 0, sid, g.enc.block(nil, []kv{{k: "x-fill", v: strings.Repeat("f", 50)}})))
+				}
+				if p.chance(1, 2) {
+					g.frame(frameBytes(9, 4, sid, nil))
+					running = append(running, sid)
+				}
+			case 5: // oversized body
+				sid := g.sid()
+				g.frame(frameBytes(1, 4, sid, g.hdrBlock(false)))
+				for i := 0; i < 3; i++ {
+					g.frame(frameBytes(0, 0, sid, p.bytes(300)))
+				}
+			case 6: // handler completes
+				if len(running) > 0 {
+					i := p.intn(len(running))
+					g.done(running[i], respGen{status: 200, body: "none"})
+					running = append(running[:i], running[i+1:]...)
+				}
+			case 7:
+				g.ping(1)
+				g.settings()
+			case 8: // mis-declared body
+				sid := g.sid()
+				g.simpleReq(sid, "POST", []byte("abcd"), kv{k: "content-length", v: "9"})
+			case 9: // PRIORITY on ever-new idle ids
+				for i := 0; i < 1+p.intn(6); i++ {
+					g.priority(g.sid(), 0, 5)
+				}
+			case 10: // a request on an id that PRIORITY mentioned first
+				sid := g.sid()
+				g.priority(sid, 0, 5)
+				next := g.sid()
+				g.simpleReq(next, "GET", nil)
+				running = append(running, next)
+				g.simpleReq(sid, "GET", nil)
+				running = append(running, sid)
+			}
+			if s%10 == 0 {
+				g.gauges()
+				g.mon()
+			}
+		}
+		g.gauges()
+		g.mon()
+		for _, sid := range running {
+			g.done(sid, respGen{status: 200, body: "none"})
+		}
+	}
+	g.line("srv %s end", g.id)
+}
+
+// srv-recv (C14): uploads within the windows, any chunking and padding, some
+// ending in stream errors.
+func genSrvRecv(p *prng, thorough bool, w *bufio.Writer) {
+	g := newSgen(p, w)
+	rounds := 12
+	if thorough {
+		rounds = 100
+	}
+	for c := 0; c < rounds; c++ {
+		g.newConn(8, 0, 3000000)
+		g.settings()
+		big := c%4 == 0
+		n := 1 + p.intn(3)
+		for i := 0; i < n; i++ {
+			sid := g.sid()
+			g.frame(frameBytes(1, 4, sid, g.hdrBlock(false)))
+			total := 50 + p.intn(5000)
+			if big {
+				total = 2200000 + p.intn(100000)
+			}
+			sent := 0
+			for sent < total {
+				l := 1 + p.intn(1200)
+				if big {
+					l = 16384 - p.intn(3)*1000
+				}
+				if sent+l > total {
+					l = total - sent
+				}
+				flags := byte(0)
+				payload := patBytes(sid, sent, l)
+				if p.chance(1, 5) && !big {
+					flags |= 8
+					payload = padded(payload, p.intn(40))
+				}
+				sent += l
+				if sent == total {
+					flags |= 1
+				}
+				g.frame(frameBytes(0, flags, sid, payload))
+				if p.chance(1, 30) {
+					g.frame(frameBytes(0, 8, sid, padded(nil, p.intn(30)))) // padded empty DATA
+				}
+			}
+			if p.chance(1, 2) {
+				g.done(sid, respGen{status: 200, body: "none"})
+			}
+		}
+		// a body that is cut off by a stream error (too large for the limit)
+		if p.chance(1, 2) {
+			sid := g.sid()
+			g.frame(frameBytes(1, 4, sid, g.hdrBlock(false)))
+			for i := 0; i < 200; i++ {
+				g.frame(frameBytes(0, 0, sid, patBytes(sid, i*16384, 16384)))
+			}
+		}
+		g.ping(1)
+	}
+	// many streams, each with one DATA frame the body limit drops; the peer stops
+	// at the RST_STREAM, as a polite sender does. The octets still count against
+	// the connection window.
+	g.newConn(8, 0, 500)
+	g.settings()
+	n := 290
+	if thorough {
+		n = 600
+	}
+	for i := 0; i < n; i++ {
+		sid := g.sid()
+		g.frame(frameBytes(1, 4, sid, g.hdrBlock(false)))
+		g.frame(frameBytes(0, 0, sid, patBytes(sid, 0, 16384)))
+	}
+	g.ping(1)
+	g.line("srv %s end", g.id)
+}
+
+// srv-settings (C18)
+func genSrvSettings(p *prng, thorough bool, w *bufio.Writer) {
+	g := newSgen(p, w)
+	rounds := 150
+	if thorough {
+		rounds = 1500
+	}
+	vals := map[uint32][]uint32{
+		1: {0, 1, 31, 32, 100, 4096, 4097, 65536},
+		2: {0, 1},
+		3: {0, 1, 100, 0xffffffff},
+		4: {0, 1, 65535, 0x7fffffff},
+		5: {16384, 16385, 1 << 20, 0xffffff},
+		6: {0, 100, 0xffffffff},
+		7: {0, 5}, 0xff: {1},
+	}
+	ids := []uint32{1, 2, 3, 4, 5, 6, 7, 0xff}
+	for c := 0; c < rounds; c++ {
+		g.newConn(4, 0, 0)
+		for s := 0; s < 1+p.intn(4); s++ {
+			var pairs []uint32
+			for i := 0; i < p.intn(4); i++ {
+				id := ids[p.intn(len(ids))]
+				v := vals[id][p.intn(len(vals[id]))]
+				pairs = append(pairs, id, v)
+			}
+			g.settings(pairs...)
+			sid := g.sid()
+			g.simpleReq(sid, "GET", nil)
+			hdr := []kv{{k: "x-big", v: strings.Repeat("v", []int{1, 100, 5000, 17000}[p.intn(4)])}, {k: "x-r", v: "1"}}
+			g.done(sid, respGen{status: 200, hdr: hdr, body: fmt.Sprintf("pat:%d", []int{1, 20000, 70000}[p.intn(3)])})
+			g.windowUpdate(0, 1<<20)
+			g.windowUpdate(sid, 1<<20)
+			if p.chance(1, 4) {
+				g.settingsAck()
+			}
+		}
+	}
+	g.line("srv %s end", g.id)
+}
+
+// srv-msg (C20): header lists over a vocabulary of valid and invalid names,
+// values, orders and duplications, with and without bodies and trailers.
+func genSrvMsg(p *prng, thorough bool, w *bufio.Writer) {
+	g := newSgen(p, w)
+	rounds := 60
+	if thorough {
+		rounds = 600
+	}
+	pseudo := []kv{{k: ":method", v: "GET"}, {k: ":method", v: "POST"}, {k: ":scheme", v: "https"}, {k: ":path", v: "/"}, {k: ":path", v: ""},
+		{k: ":authority", v: "a"}, {k: ":status", v: "200"}, {k: ":foo", v: "x"}, {k: ":", v: "x"}}
+	regular := []kv{{k: "x-a", v: "1"}, {k: "X-Upper", v: "1"}, {k: "x-Mixed", v: "1"}, {k: "connection", v: "close"}, {k: "keep-alive", v: "1"},
+		{k: "proxy-connection", v: "x"}, {k: "transfer-encoding", v: "chunked"}, {k: "upgrade", v: "h2c"}, {k: "te", v: "trailers"},
+		{k: "te", v: "gzip"}, {k: "te", v: "trailers, deflate"}, {k: "content-length", v: "3"}, {k: "content-length", v: "0"},
+		{k: "content-length", v: "abc"}, {k: "content-length", v: ""}, {k: "content-length", v: "18446744073709551619"},
+		{k: "content-length", v: "-3"}, {k: "content-length", v: "+3"}, {k: "accept", v: "*/*"}, {k: "user-agent", v: "u"}}
+	for c := 0; c < rounds; c++ {
+		g.newConn(100, 0, 0)
+		g.settings()
+		for q := 0; q < 30; q++ {
+			sid := g.sid()
+			var hs []kv
+			if p.chance(3, 4) { // mostly valid skeleton, then perturb
+				hs = []kv{{k: ":method", v: "POST"}, {k: ":scheme", v: "https"}, {k: ":path", v: "/p"}, {k: ":authority", v: "a"}}
+				for i := p.intn(3); i > 0; i-- {
+					hs = append(hs, regular[p.intn(len(regular))])
+				}
+				switch p.intn(8) {
+				case 0:
+					hs = append(hs, pseudo[p.intn(len(pseudo))])
+				case 1:
+					i := p.intn(4)
+					hs = append(hs[:i], hs[i+1:]...)
+				case 2:
+					hs = append([]kv{pseudo[p.intn(len(pseudo))]}, hs...)
+				case 3:
+					i, j := p.intn(len(hs)), p.intn(len(hs))
+					hs[i], hs[j] = hs[j], hs[i]
+				}
+			} else {
+				for i := 1 + p.intn(6); i > 0; i-- {
+					if p.chance(1, 2) {
+						hs = append(hs, pseudo[p.intn(len(pseudo))])
+					} else {
+						hs = append(hs, regular[p.intn(len(regular))])
+					}
+				}
+			}
+			bodyLen := []int{0, 0, 3, 3, 5}[p.intn(5)]
+			var trailers []kv
+			if p.chance(1, 5) {
+				trailers = []kv{[]kv{{k: "x-t", v: "1"}, {k: ":path", v: "/"}, {k: "X-T", v: "1"}, {k: "connection", v: "x"}, {k: "te", v: "gzip"}}[p.intn(5)]}
+			}
+			block := g.enc.block(p, hs)
+			es := bodyLen == 0 && trailers == nil
+			fl := byte(4)
+			if es {
+				fl |= 1
+			}
+			g.line("#msg %d hs=%s body=%d trailers=%s", sid, kvHex(hs), bodyLen, kvHex(trailers))
+			g.frame(frameBytes(1, fl, sid, block))
+			if bodyLen > 0 {
+				fl := byte(0)
+				if trailers == nil {
+					fl = 1
+				}
+				g.frame(frameBytes(0, fl, sid, []byte("abcde")[:bodyLen]))
+			}
+			if trailers != nil {
+				g.frame(frameBytes(1, 5, sid, g.enc.block(p, trailers)))
+			}
+			g.done(sid, respGen{status: 200, body: "none"})
+		}
+	}
+	g.line("srv %s end", g.id)
+}
+
+// srv-soup (C17): random frame soups, mutations of a well-formed byte stream, and
+// every truncation of it.
+func genSrvSoup(p *prng, thorough bool, w *bufio.Writer) {
+	g := newSgen(p, w)
+	// a recorded well-formed client byte stream
+	rec := func() [][]byte {
+		e := newPeerEnc()
+		var fr [][]byte
+		fr = append(fr, frameBytes(4, 0, 0, settingsPayload(3, 100, 4, 65535)))
+		fr = append(fr, frameBytes(4, 1, 0, nil))
+		b := e.block(nil, []kv{{k: ":method", v: "POST"}, {k: ":scheme", v: "https"}, {k: ":path", v: "/up"}, {k: ":authority", v: "a"}, {k: "x-a", v: "1"}})
+		fr = append(fr, frameBytes(1, 0, 1, b[:7]), frameBytes(9, 4, 1, b[7:]))
+		fr = append(fr, frameBytes(0, 0, 1, []byte("hello ")), frameBytes(0, 9, 1, padded([]byte("world"), 3)))
+		fr = append(fr, frameBytes(1, 0x25, 3, append(append(u32(1), 7), e.block(nil, []kv{{k: ":method", v: "GET"}, {k: ":scheme", v: "https"}, {k: ":path", v: "/"}})...)))
+		fr = append(fr, frameBytes(8, 0, 0, u32(1000)), frameBytes(6, 0, 0, []byte("12345678")), frameBytes(2, 0, 5, append(u32(0), 3)))
+		fr = append(fr, frameBytes(3, 0, 3, u32(8)), frameBytes(7, 0, 0, append(append(u32(0), u32(0)...), []byte("bye")...)))
+		return fr
+	}
+	frames := rec()
+	var stream []byte
+	for _, f := range frames {
+		stream = append(stream, f...)
+	}
+	// every truncation offset
+	stepCut := 1
+	if !thorough {
+		stepCut = 3
+	}
+	for cut := 0; cut <= len(stream); cut += stepCut {
+		g.newConn(4, 0, 0)
+		g.bytes(stream[:cut])
+		g.line("srv %s cut", g.id)
+	}
+	// structure-aware mutations
+	n := 300
+	if thorough {
+		n = 5000
+	}
+	for i := 0; i < n; i++ {
+		g.newConn(4, 0, 0)
+		fs := rec()
+		switch p.intn(5) {
+		case 0: // delete
+			j := p.intn(len(fs))
+			fs = append(fs[:j], fs[j+1:]...)
+		case 1: // duplicate
+			j := p.intn(len(fs))
+			fs = append(fs[:j+1], fs[j:]...)
+		case 2: // insert random frame
+			j := p.intn(len(fs))
+			rf := frameBytes(byte(p.intn(12)), byte(p.intn(256)), uint32(p.intn(8)), p.bytes(p.intn(12)))
+			fs = append(fs[:j], append([][]byte{rf}, fs[j:]...)...)
+		case 3: // flip a header field
+			j := p.intn(len(fs))
+			f := append([]byte(nil), fs[j]...)
+			k := p.intn(9)
+			f[k] ^= byte(1 << uint(p.intn(8)))
+			fs[j] = f
+		case 4: // flip a payload octet
+			j := p.intn(len(fs))
+			f := append([]byte(nil), fs[j]...)
+			if len(f) > 9 {
+				f[9+p.intn(len(f)-9)] ^= byte(1 << uint(p.intn(8)))
+			}
+			fs[j] = f
+		}
+		for _, f := range fs {
+			g.bytes(f)
+		}
+		if p.chance(1, 2) {
+			g.done(1, respGen{status: 200, body: "pat:10"})
+		}
+		g.line("srv %s cut", g.id)
+	}
+	// random soups
+	for i := 0; i < n; i++ {
+		g.newConn(4, 0, 0)
+		if p.chance(1, 2) {
+			g.settings()
+		}
+		for j := 0; j < 1+p.intn(10); j++ {
+			l := p.intn(20)
+			typ := byte(p.intn(11))
+			if p.chance(1, 10) {
+				typ = byte(p.intn(256))
+			}
+			g.bytes(frameBytes(typ, byte(p.intn(256)), uint32(p.intn(6)), p.bytes(l)))
+		}
+		g.line("srv %s cut", g.id)
+	}
+	g.line("srv %s end", g.id)
+}
+
+func init() {
+	srvGens["srv-flow"] = genSrvFlow
+	srvGens["srv-state"] = genSrvState
+	srvGens["srv-err"] = genSrvErr
+	srvGens["srv-goaway"] = genSrvGoAway
+	srvGens["srv-limits"] = genSrvLimits
+	srvGens["srv-recv"] = genSrvRecv
+	srvGens["srv-settings"] = genSrvSettings
+	srvGens["srv-msg"] = genSrvMsg
+	srvGens["srv-soup"] = genSrvSoup
 }
